@@ -650,6 +650,9 @@ def beyondDepth (sd : SD) (st : SSt) : Bool :=
   | none => false
 
 def specScriptLine (v desc stmts : String) (raw : String) : String :=
+  -- D: the harness drops (and lets the collector reclaim) the base Number after the leading view
+  -- statements; what the views deliver is specified exactly as without it
+  let desc := if desc.startsWith "D" then String.mk (desc.toList.drop 1) else desc
   match parseNumDesc desc, parseStmts stmts with
   | some nd, some ss =>
     if raw == "na" then "ok"        -- constructor not available in this version
